@@ -257,9 +257,19 @@ func enumerate(c *core.Ctx, si shapeInfo) []Scn {
 		}
 	}
 	// the context fires between step j and step j+1: EVERY j (the next step would stall)
+	// quick: the deadline flavour at the first j whose next step is a read, the first
+	// whose next step is a write (deterministic), and one seeded j
 	var dlSample map[int]bool
 	if !th && n > 1 {
-		dlSample = map[int]bool{1: true, 1 + rng.Intn(n-1): true}
+		dlSample = map[int]bool{1 + rng.Intn(n-1): true}
+		for _, want := range []byte{'r', 'w'} {
+			for j := 1; j < n; j++ {
+				if si.kinds[j] == want {
+					dlSample[j] = true
+					break
+				}
+			}
+		}
 	}
 	for j := 1; j < n; j++ {
 		add("between_steps", "cancel", "probe", j+1, j, nil)
@@ -309,6 +319,7 @@ func runAll(c *core.Ctx, e *env, classes map[classKey]*expect, infos map[string]
 	var mu sync.Mutex
 	conform := int64(0)
 	byTiming := map[string]int{}
+	sampled := map[string]bool{}
 	maxLat := map[string]float64{}
 	flakes, retimed, hsOtherErr := 0, 0, 0
 	var fails []failRec
@@ -320,27 +331,27 @@ func runAll(c *core.Ctx, e *env, classes map[classKey]*expect, infos map[string]
 			c.Broken("no model class for scenario %s (%+v)", s.key(), classOf(s))
 			return
 		}
-		var o Obs
-		var d *diff
-		var hp string
-		// a real deadline that passed before the intended point is re-timed, not judged
-		for try := 0; try < 4; try++ {
-			o = exec(e, si.sh, s, x.ClosedAll)
-			d, hp = judge(si.sh, s, o, x)
-			if hp != "" && strings.HasPrefix(hp, "deadline passed") {
+		// one attempt = one run; a real deadline that passed before the intended point
+		// (slow machine) is re-timed with a longer deadline, not judged
+		attempt := func() (o Obs, d *diff, hp string) {
+			for try := 0; try < 4; try++ {
+				o = exec(e, si.sh, s, x.ClosedAll)
+				d, hp = judge(si.sh, s, o, x)
+				if hp == "" || !strings.HasPrefix(hp, "deadline passed") {
+					break
+				}
 				s.DeadlineMs *= 4
 				mu.Lock()
 				retimed++
 				mu.Unlock()
-				continue
 			}
-			break
+			return
 		}
+		o, d, hp := attempt()
 		c.Eval(s.key(), s.Timing != "never")
 		if hp != "" || d != nil {
 			// DESIGN §5 (ii): a difference counts only if an immediate second run shows it too
-			o2 := exec(e, si.sh, s, x.ClosedAll)
-			d2, hp2 := judge(si.sh, s, o2, x)
+			o2, d2, hp2 := attempt()
 			switch {
 			case d2 == nil && hp2 == "":
 				mu.Lock()
@@ -366,7 +377,8 @@ func runAll(c *core.Ctx, e *env, classes map[classKey]*expect, infos map[string]
 		}
 		if d == nil {
 			conform++
-			if i%97 == 0 {
+			if s.Timing != "never" && !sampled[s.Timing] {
+				sampled[s.Timing] = true
 				c.Sample(map[string]any{"scenario": s, "observed": o, "model": map[string]any{"err": x.errText(), "closed_required": x.ClosedAll}})
 			}
 			return
@@ -383,7 +395,11 @@ func runAll(c *core.Ctx, e *env, classes map[classKey]*expect, infos map[string]
 	c.Set("deadline_runs_retimed", retimed)
 	c.Set("handshake_errors_not_wrapping_ctx_err", hsOtherErr)
 	c.Set("flakes", flakes)
-	if flakes > 5 {
+	maxFlakes := 5
+	if c.Thorough() {
+		maxFlakes = 12
+	}
+	if flakes > maxFlakes {
 		c.Broken("%d runs differed once and conformed on the re-run: the machine is too loaded for the latency bounds", flakes)
 	}
 	// one failure per abstract signature (the lexicographically first scenario), with a count
@@ -417,6 +433,12 @@ func run(c *core.Ctx) {
 	c.Assume("a stalled peer is realised at the connection: the k-th Read/Write of the call blocks until Close and then fails with net.ErrClosed, as a real socket does")
 	c.Assume("package context registers AfterFunc on a foreign context through its AfterFunc(func()) func() bool method (Go >= 1.21); used only to place a cancellation between two steps")
 	c.Assume("cedar reads exact sizes with io.ReadFull, so one readWithContext is one connection-level step (not true under TLS: no SSL shape)")
+	// cedar's FS authentication prints warnings to stdout with fmt.Printf
+	if devnull, err := os.OpenFile(os.DevNull, os.O_WRONLY, 0); err == nil {
+		stdout := os.Stdout
+		os.Stdout = devnull
+		defer func() { os.Stdout = stdout; devnull.Close() }()
+	}
 	e, err := newEnv(c.Tmp)
 	if err != nil {
 		c.Broken("cannot create TOKEN credentials: %v", err)
@@ -435,16 +457,26 @@ func run(c *core.Ctx) {
 		}
 	}()
 	defer func() { <-mcDone }()
-	raws := kit.Generate(c, "Gen_Cancel.tla", "Gen_C19.cfg", tlc.Options{})
-	if c.IsBroken() {
-		return
-	}
-	classes := buildClasses(c, raws)
-	if classes == nil {
-		return
-	}
-	c.Set("model_classes", len(classes))
-	if replayFile(c, e, classes) {
+	// ... and so does the generator, while the steps of the shapes are counted
+	var classes map[classKey]*expect
+	genDone := make(chan struct{})
+	go func() {
+		defer close(genDone)
+		raws := kit.Generate(c, "Gen_Cancel.tla", "Gen_C19.cfg", tlc.Options{})
+		if c.IsBroken() {
+			return
+		}
+		classes = buildClasses(c, raws)
+		if classes != nil {
+			c.Set("model_classes", len(classes))
+		}
+	}()
+	defer func() { <-genDone }()
+	if c.Replay != "" {
+		<-genDone
+		if classes != nil {
+			replayFile(c, e, classes)
+		}
 		return
 	}
 
@@ -492,6 +524,10 @@ func run(c *core.Ctx) {
 		scns = append(scns, enumerate(c, si)...)
 	}
 	c.Set("io_steps_total", total)
+	<-genDone
+	if classes == nil || c.IsBroken() {
+		return
+	}
 	workers := 16
 	runAll(c, e, classes, infos, scns, workers)
 	c.Set("exhaustive", true)
